@@ -387,6 +387,25 @@ def rules(rep, m):
         rep.finding(r4, gs.name, "forward:none", "signalling a guard does not forward to its observers",
                     where=m.rel(gs.where))
         r4.fail()
+    # every observer is signalled: inside the walk over the list the forwarding call is unconditional - not the right operand
+    # of a short-circuit, not under a test of what an earlier observer (or the guard's own waiter) did
+    for c in fwd:
+        lp_ = [a_ for a_ in inv.enclosing_chain(gs, c) if a_["kind"] in ("WhileStmt", "ForStmt", "DoStmt")]
+        if not lp_:
+            continue
+        conds_c = [(n_, t_) for n_, t_ in inv.dominating_cond_nodes(gs, c)
+                   if any(z is n_ for z in walk(lp_[-1])) and not any(z is n_ for z in walk(kids(lp_[-1])[0] if lp_[-1]["kind"] == "WhileStmt" else {"kind": "x"}))]
+        # tests of the list cursor itself (end of list) are the walk, not a restriction
+        conds_c = [(n_, t_) for n_, t_ in conds_c if "observers" not in gx.canon(n_) and "->next" not in gx.canon(n_)]
+        r4.instance("forwarding call inside the walk is unconditional: %s" % (not conds_c))
+        if conds_c:
+            rep.finding(r4, gs.name, "forward:conditional", "inside the walk over the observers the signal is forwarded only under "
+                        "%s: once that decides, the remaining observers are skipped, and a waiter at one of them whose predicate "
+                        "became true through this release is not resumed" % [gx.canon(n_)[:80] for n_, t_ in conds_c],
+                        where=m.rel(loc(c)))
+            r4.fail()
+        else:
+            r4.ok()
     for c in fwd:
         callee = m.funcs.get(m.resolve(gs.unit, callee_ref(c)))
         r4.instance("observers are signalled through %s" % callee_ref(c))
@@ -432,10 +451,11 @@ def rules(rep, m):
     r7 = rep.rule("R-C13-7", "a waiter that leaves the condition with any code other than success - the predefined negative "
                   "ones or an application-defined one of either sign, from its own timer - is out of the queue when the wait "
                   "returns: every path of cmb_resourceguard_wait (through which the condition waits) that can be taken with "
-                  "a code other than success removes the caller's entry (shared with R-C08-3); a ghost entry would be "
-                  "'resumed' by a later signal out of an unrelated wait", floor=1)
+                  "a code other than success removes the caller's entry, and where the entry was already gone withdraws every wake-up "
+                  "the guard sent it - whatever its code - and passes a grant on (shared with R-C08-3); a ghost entry or a "
+                  "left-over wake-up would 'resume' the process out of an unrelated wait", floor=1)
     from . import c08
-    c08.guard_leave_rule(rep, r7, m, dequeue_only=True)
+    c08.guard_leave_rule(rep, r7, m)
 
     # R-C13-8 ------------------------------------------------------------
     r8 = rep.rule("R-C13-8", "a waiter that is stopped is taken out of the condition's queue before its holdings are dropped: "
